@@ -174,3 +174,52 @@ func runC06Batch(rcx *RunCtx, bc c06BatchCase) {
 	})
 	finishRun(rcx)
 }
+
+// A request whose frame is exactly as long as the negotiated msize (or one
+// byte shorter) is a decodable request like any other.
+var c06ExactMsizes = []uint32{4096, 8192, 65536}
+
+func c06ExactCount() int { return len(c06ExactMsizes) * 2 }
+
+func runC06ExactMsize(rcx *RunCtx, k int) {
+	cfg := simCfg(rcx)
+	msize := c06ExactMsizes[k/2]
+	size := int(msize) - 1 + k%2
+	rcx.Label = fmt.Sprintf("frame of %d bytes at msize %d", size, msize)
+	rcx.Sample = map[string]interface{}{"msize": msize, "request_frame_bytes": size}
+	rcx.Res = simrt.Run(cfg, rcx.Sched, func() {
+		fs := simfs.New()
+		fs.MkPath("/f")
+		w := NewWorld(nil, fs)
+		c := w.Connect()
+		if !c.Start(msize, "9P2000.L.Google.7") || !c.WalkTo(0, 1, "/f") || Errno(c.RPC(&rc.Tlopen{Fid: 1, Flags: 2})) != 0 {
+			rcx.Find("C06", "setup", "setup", "setup failed")
+			return
+		}
+		data := make([]byte, size-23)
+		for i := range data {
+			data[i] = byte(i)
+		}
+		m := &rc.Twrite{Fid: 1, Offset: 0, Data: data}
+		if len(rc.Encode(0, m)) != size {
+			rcx.Find("C06", "setup", "size", "harness: frame is %d bytes, wanted %d", len(rc.Encode(0, m)), size)
+			return
+		}
+		req := c.Send(c.Tag(), m)
+		simrt.WaitQuiescent()
+		if req.Reply == nil {
+			rcx.Find("C06", "no-reply", "exact-msize", "a Twrite frame of %d bytes at msize %d (within the limit) was not answered", size, msize)
+		} else if rw, ok := req.Reply.Msg.(*rc.Rwrite); !ok || int(rw.Count) != len(data) {
+			rcx.Find("C06", "wrong-reply", "exact-msize", "a Twrite frame of %d bytes at msize %d was answered %s", size, msize, rc.String(req.Reply.Msg))
+		}
+		// and the connection is still there
+		g := c.Send(c.Tag(), &rc.Tgetattr{Fid: 1, Mask: rc.GetattrAll})
+		simrt.WaitQuiescent()
+		if g.Reply == nil {
+			rcx.Find("C06", "no-reply", "exact-msize/after", "the request after a frame of %d bytes at msize %d was not answered", size, msize)
+		}
+		w.Shutdown()
+		rcx.Findings = append(rcx.Findings, w.Findings...)
+	})
+	finishRun(rcx)
+}
